@@ -2168,9 +2168,64 @@ func (c *Ctx) checkGuardUnconditional(fn *ssa.Function, gi *guardInfo) {
 	if g == nil {
 		return
 	}
-	for _, p := range gi.okBlk.Preds {
+	// the predecessors of the continuation, seen through blocks that only jump on (the join of a `switch { case … }`)
+	var preds []*ssa.BasicBlock
+	var expand func(b *ssa.BasicBlock, depth int)
+	expand = func(b *ssa.BasicBlock, depth int) {
+		for _, p := range b.Preds {
+			if _, isJump := p.Instrs[len(p.Instrs)-1].(*ssa.Jump); isJump && len(p.Instrs) == 1 && depth < 4 && p != G {
+				expand(p, depth+1)
+				continue
+			}
+			preds = append(preds, p)
+		}
+	}
+	expand(gi.okBlk, 0)
+	for _, p := range preds {
 		if p == G || gi.okBlk.Dominates(p) {
 			continue
+		}
+		isZeroTest := func(q *ssa.BasicBlock, towards *ssa.BasicBlock) bool {
+			iff, ok := q.Instrs[len(q.Instrs)-1].(*ssa.If)
+			if !ok {
+				return false
+			}
+			cond, ok := iff.Cond.(*ssa.BinOp)
+			if !ok || globalLoad(cond.X) != g {
+				return false
+			}
+			if k, isK := constInt(cond.Y); !isK || k != 0 {
+				return false
+			}
+			switch cond.Op {
+			case token.NEQ, token.GTR:
+				return q.Succs[1] == towards
+			case token.EQL, token.LEQ:
+				return q.Succs[0] == towards
+			}
+			return false
+		}
+		// the conjunction materialised as a boolean (`switch { case Max != 0 && l > Max: }`): the block branches on
+		// phi(false from the limit-is-zero test, the length test)
+		if iff, ok := p.Instrs[len(p.Instrs)-1].(*ssa.If); ok {
+			if ph, isPhi := iff.Cond.(*ssa.Phi); isPhi && ph.Block() == p {
+				fine, hasCmp := true, false
+				for i, ed := range ph.Edges {
+					switch {
+					case ed == ssa.Value(bo):
+						hasCmp = true
+					case i < len(p.Preds) && isZeroTest(p.Preds[i], p):
+						if k, isK := ed.(*ssa.Const); !isK || k.Value == nil || k.Value.Kind() != constant.Bool || constant.BoolVal(k.Value) {
+							fine = false
+						}
+					default:
+						fine = false
+					}
+				}
+				if fine && hasCmp {
+					continue
+				}
+			}
 		}
 		// the block ends in the test `MaxInputLength != 0` (whatever else it computes: `if l := len(input); …`)
 		if iff, ok := p.Instrs[len(p.Instrs)-1].(*ssa.If); ok {
